@@ -640,6 +640,9 @@ class Workspace(AbstractContextManager):
         for key, value in referents.items():
             if value() is None:
                 rem_list += [key]
+                if rtype == "PropertyGroups":
+                    # stored under their object, not in a flat container
+                    continue
                 self._io_call(
                     H5Writer.remove_entity, key, rtype, parent=self, mode="r+"
                 )
